@@ -387,3 +387,30 @@ Section BVP.
     split; [reflexivity | constructor].
   Qed.
 End BVP.
+
+(* ---- dimension audit 2: magnitude of integer arguments *)
+From Coq Require Import ZArith.
+Lemma c11_firstn_repeat {A} (x : A) : forall n k, n <= k -> firstn n (repeat x k) = repeat x n.
+Proof. induction n as [| n IH]; intros k H; [reflexivity |]. destruct k; [lia |]. simpl. f_equal. apply IH. lia. Qed.
+
+(* a shift by ANY count >= the block size (2^31, 2^32, 2^63, SIZE_MAX ...) is the shift by the block size: all bits leave the block *)
+Lemma c11_bitset_shift_saturates_lemma : forall (b : list bool) (k : nat), length b <= k ->
+  c11_bitset_shl b k = c11_bitset_shl b (length b) /\ c11_bitset_shr b k = c11_bitset_shr b (length b)
+  /\ c11_bitset_shl b k = repeat false (length b) /\ c11_bitset_shr b k = repeat false (length b).
+Proof.
+  intros b k H.
+  assert (L : forall j, length b <= j -> c11_bitset_shl b j = repeat false (length b)).
+  { intros j Hj. unfold c11_bitset_shl. rewrite firstn_app, repeat_length. replace (length b - j) with 0 by lia. simpl. rewrite app_nil_r.
+    apply c11_firstn_repeat. exact Hj. }
+  assert (R : forall j, length b <= j -> c11_bitset_shr b j = repeat false (length b)).
+  { intros j Hj. unfold c11_bitset_shr. rewrite skipn_all2 by exact Hj. simpl. f_equal. lia. }
+  rewrite (L k H), (L (length b) (le_n _)), (R k H), (R (length b) (le_n _)). repeat split.
+Qed.
+
+(* "Sets bit n if val is nonzero, and clears bit n if val is zero": every int, not only 0 and 1 *)
+Lemma c11_bv_val_to_bool_lemma : forall val : Z, (c11_bv_val_to_bool val = true <-> val <> 0%Z) /\ (c11_bv_val_to_bool val = false <-> val = 0%Z).
+Proof.
+  intros val. unfold c11_bv_val_to_bool. destruct (Z.eqb val 0) eqn:E; simpl.
+  - apply Z.eqb_eq in E. split; split; intros H; try discriminate; try contradiction; auto.
+  - apply Z.eqb_neq in E. split; split; intros H; try discriminate; try contradiction; auto.
+Qed.
